@@ -1,0 +1,60 @@
+//go:build verif
+
+package plugin
+
+// Contracts for the plugin protocol glue (property C11). Comment-only file, read by /verif/engine (govc).
+
+// Pack: one "name=desc" string per option, in order.
+//@ func Pack(opts []Option) (ss []string)
+//@   pure
+//@   ensures len(ss) == len(opts)
+//@   ensures forall k int :: 0 <= k && k < len(opts) ==> ss[k] == opts[k].Name + "=" + opts[k].Desc
+//@   loop 1 invariant len(ss) == $i && forall k int :: 0 <= k && k < $i ==> ss[k] == opts[k].Name + "=" + opts[k].Desc
+
+//@ func BuildErrorResponse(errMsg string, warnings ...string) *Response
+//@   ensures result != nil && fresh(result) && result.Error != nil && *result.Error == errMsg && result.Warnings == warnings && len(result.Contents) == 0
+
+// Data trailer: appended feature byte + marker; recognised only at the very end of the data.
+//@ func appendDataTrailer(data []byte, feature uint8) []byte
+//@   ensures len(result) == len(data) + 1 + len(pluginDataTrailer)
+//@   ensures result[len(data)] == feature
+//@   ensures forall k int :: 0 <= k && k < len(data) ==> result[k] == data[k]
+//@   ensures forall k int :: 0 <= k && k < len(pluginDataTrailer) ==> result[len(data) + 1 + k] == pluginDataTrailer[k]
+
+//@ func hasDataTrailerFeature(data []byte, feature uint8) bool
+//@   ensures result ==> len(data) >= len(pluginDataTrailer) + 1
+
+// The generated decoder of Response is assumed (trusted): it writes only the receiver.
+//@ func (p *Response) FastRead(b []byte) (off int, err error)
+//@   trusted
+//@   modifies *p
+
+//@ func UnmarshalResponse(bs []byte) (*Response, error)
+//@   ensures (result1 == nil) == (result0 != nil)
+
+//@ func (e *external) Name() string
+//@   requires e != nil
+//@   ensures result == e.name
+
+// Execute: every failure becomes an error response; a decoded response is returned as it is (plus stderr warning).
+//@ func (e *external) Execute(req *Request) (res *Response)
+//@   requires e != nil && req != nil
+//@   propagates
+//@   ensures res != nil
+//@   ensures $failed ==> res.Error != nil
+//@   modifies *
+
+// Include compression (experimental, behind an environment variable): assumed contracts; they only redirect
+// Include.Reference links and fill the map they are given.
+//@ func compressThriftInclude(p *parser.Thrift, m map[string]*parser.Thrift)
+//@   trusted
+//@   modifies parser.Include.Reference, contents(m)
+//@ func decompressThriftInclude(p *parser.Thrift, m map[string]*parser.Thrift)
+//@   trusted
+//@   modifies parser.Include.Reference
+//@ func readPluginThriftGoVersion(name string) string
+//@   trusted
+
+// The generated encoder reads the request and writes nothing (assumed).
+//@ func (p *Request) FastAppend(b []byte) []byte
+//@   trusted
